@@ -530,6 +530,7 @@ func checkC18(c *Ctx, r *Report) {
 		"R3 the config file is replaced atomically: no truncating open of the live path; bytes reach it by os.Rename from a temp file in the same directory after a successful encode",
 		"R4 an update stages exactly the fields whose json tag equals the document key",
 		"R5 both entrances (file load and API update) run Config.verify",
+		"R8 Config.verify succeeds only if the completeness walk (every property IsSet) did, and that walk returns from inside its loop over the fields only with a non-nil error: no field is skipped",
 		"R7 before anything is staged the would-be file form (current + update) is decoded into a fresh Config and verified (dry run); staging is dominated by its success",
 		"R6 an update's steps (staging, commit, verify, persist, rollback, confirm) all run with one common mutex in the must-held set: updates are applied one at a time",
 	}
@@ -1111,6 +1112,147 @@ func checkC18(c *Ctx, r *Report) {
 	for _, f := range c.FuncsNamed(configPkg + ".LoadOrDefault") {
 		r.Check(findCall(f, configPkg+".load") != nil, "C18.R5", "LoadOrDefault loads through load()", c.Pos(f.Pos()), "calls load", "LoadOrDefault bypasses load()")
 	}
+
+	// ---- R8: a configuration that lacks a property is refused, whichever property it is. The completeness walk
+	// (the function that asks every property IsSet) visits every field of every section: inside its loop over
+	// the fields it returns only to report an error; success is reported after the loop is exhausted. And
+	// Config.verify reports success only if the walk did.
+	var walkers []*ssa.Function
+	for _, f := range li.Fns {
+		if originPkgPath(f) != configPkg || f.Blocks == nil {
+			continue
+		}
+		eachInstr(f, func(in ssa.Instruction) {
+			if call, ok := in.(*ssa.Call); ok && call.Call.IsInvoke() && call.Call.Method.Name() == "IsSet" {
+				walkers = appendUniqueFn(walkers, f)
+			}
+		})
+	}
+	blockInCycle := func(b *ssa.BasicBlock) bool {
+		seen := map[*ssa.BasicBlock]bool{}
+		var st []*ssa.BasicBlock
+		st = append(st, b.Succs...)
+		for len(st) > 0 {
+			x := st[len(st)-1]
+			st = st[:len(st)-1]
+			if x == b {
+				return true
+			}
+			if seen[x] {
+				continue
+			}
+			seen[x] = true
+			st = append(st, x.Succs...)
+		}
+		return false
+	}
+	for _, w := range walkers {
+		var bad []string
+		nRet := 0
+		eachInstr(w, func(in ssa.Instruction) {
+			ret, ok := in.(*ssa.Return)
+			if !ok || isRecoverReturn(ret) {
+				return
+			}
+			inLoop := false
+			for _, p := range ret.Block().Preds {
+				if blockInCycle(p) {
+					inLoop = true
+				}
+			}
+			if !inLoop {
+				return
+			}
+			// the exit taken when the loop is exhausted (index >= number of fields) is the one place for success
+			for _, fc := range factsAt(w, ret) {
+				bo, ok := fc.cond.(*ssa.BinOp)
+				if !ok {
+					continue
+				}
+				isCount := func(v ssa.Value) bool {
+					call, ok := unconvNum(v).(*ssa.Call)
+					if !ok {
+						return false
+					}
+					if bi, ok := call.Call.Value.(*ssa.Builtin); ok {
+						return bi.Name() == "len"
+					}
+					n := calleeName(call)
+					return strings.HasSuffix(n, ".NumField") || strings.HasSuffix(n, ".Len")
+				}
+				_, xPhi := unconvNum(bo.X).(*ssa.Phi)
+				_, yPhi := unconvNum(bo.Y).(*ssa.Phi)
+				switch {
+				case xPhi && isCount(bo.Y):
+					if bo.Op == token.LSS && !fc.truth || bo.Op == token.GEQ && fc.truth || bo.Op == token.EQL && fc.truth || bo.Op == token.NEQ && !fc.truth {
+						return
+					}
+				case yPhi && isCount(bo.X):
+					if bo.Op == token.GTR && !fc.truth || bo.Op == token.LEQ && fc.truth || bo.Op == token.EQL && fc.truth || bo.Op == token.NEQ && !fc.truth {
+						return
+					}
+				}
+			}
+			nRet++
+			vals := retVals(ret)
+			ev := vals[len(vals)-1]
+			nonNil := false
+			switch x := ev.(type) {
+			case *ssa.Call:
+				if n := calleeName(x); n == "fmt.Errorf" || n == "errors.New" {
+					nonNil = true
+				}
+			case *ssa.MakeInterface:
+				nonNil = true
+			}
+			if !nonNil && !isNilConst(ev) {
+				for _, fc := range factsAt(w, ret) {
+					if bo, ok := fc.cond.(*ssa.BinOp); ok && (bo.X == ev && isNilConst(bo.Y) || bo.Y == ev && isNilConst(bo.X)) {
+						if bo.Op == token.NEQ && fc.truth || bo.Op == token.EQL && !fc.truth {
+							nonNil = true
+						}
+					}
+				}
+			}
+			if !nonNil {
+				bad = append(bad, c.InstrPos(ret))
+			}
+		})
+		r.Check(len(bad) == 0, "C18.R8", fnKey(w)+": the completeness walk leaves its field loop only to report an error", c.Pos(w.Pos()), fmt.Sprintf("%d returns inside the loop, each returns a non-nil error", nRet), "the walk over the configuration's fields can return success from inside the loop (return at "+strings.Join(bad, ", ")+"): the fields after that point are never asked IsSet, so a file that lacks one of them is accepted and later operations fail on the incomplete configuration")
+	}
+	r.Floor("C18.R8", len(walkers), 1, "functions that ask properties IsSet")
+	for _, f := range c.FuncsNamed("(*" + configPkg + ".Config).verify") {
+		okAll, n := true, 0
+		eachInstr(f, func(in ssa.Instruction) {
+			call, ok := in.(*ssa.Call)
+			if !ok {
+				return
+			}
+			g := unwrapSynthetic(staticCallee(call))
+			isWalk := false
+			for _, w := range walkers {
+				if g == w {
+					isWalk = true
+				}
+			}
+			if !isWalk {
+				return
+			}
+			n++
+			// every return of a nil error lies on the walk's err == nil side
+			eachInstr(f, func(i2 ssa.Instruction) {
+				ret, ok := i2.(*ssa.Return)
+				if !ok || isRecoverReturn(ret) {
+					return
+				}
+				vals := retVals(ret)
+				if isNilConst(vals[len(vals)-1]) && !onlyWhenNil(f, ret, call, true) {
+					okAll = false
+				}
+			})
+		})
+		r.Check(n > 0 && okAll, "C18.R8", "Config.verify succeeds only if the completeness walk did", c.Pos(f.Pos()), "nil return dominated by walk()==nil", "Config.verify does not run the completeness walk over the configuration, or reports success although it failed: a configuration with a missing property is accepted")
+	}
 }
 
 func checkC19(c *Ctx, r *Report) {
@@ -1530,6 +1672,39 @@ func lossyChannelsCarryNoState(c *Ctx, r *Report, li *LockInfo) {
 				n++
 				key := fnKey(f) + ": droppable send on " + strings.Join(p, ".")
 				r.Check(receiversDiscard(f, p[len(p)-1]), "C19.R5", key, c.InstrPos(sel), "receivers ignore the value and read the live setting", "a send that is dropped when the slot is full carries a value the receiver applies: after two quick changes the receiver keeps the older value that was already in the slot")
+				// A droppable wake-up is only lossless if "dropped" means "one is already pending": the channel needs a
+				// slot. On an unbuffered channel the send is dropped whenever the receiver is not parked in its select
+				// at that instant (busy with a cycle, handling the previous wake-up, not started yet) and nothing is
+				// left to tell it that the setting changed.
+				minCap, nMake := int64(1<<62), 0
+				for _, g := range li.Fns {
+					if !isModPath(originPkgPath(g)) {
+						continue
+					}
+					eachInstr(g, func(i2 ssa.Instruction) {
+						st2, ok := i2.(*ssa.Store)
+						if !ok {
+							return
+						}
+						fv, _, is := fieldOf(st2.Addr)
+						if !is || fv.Name() != p[len(p)-1] {
+							return
+						}
+						mk, ok := unconv(st2.Val).(*ssa.MakeChan)
+						if !ok {
+							return
+						}
+						nMake++
+						sz, isC := constInt(mk.Size)
+						if !isC {
+							sz = 0
+						}
+						if sz < minCap {
+							minCap = sz
+						}
+					})
+				}
+				r.Check(nMake > 0 && minCap >= 1, "C19.R5", key+" has a slot", c.InstrPos(sel), fmt.Sprintf("every make of the channel has capacity >= 1 (%d sites)", nMake), "the wake-up is sent with select/default on a channel without buffer: it is lost whenever the receiver is not waiting at that very moment, and the component keeps running on the old setting although a newer one was accepted")
 			}
 		})
 	}
